@@ -546,11 +546,20 @@ from urwid.display import escape as _esc  # noqa: E402
 PRD = "urwid/display/_posix_raw_display.py:"
 RDB = "urwid/display/_raw_display_base.py:"
 MODES = ("m_alt", "m_paste", "m_focus", "m_mouse", "m_cbreak", "m_signals", "m_cursor_hidden")
+# the modes that are switched by escape sequences travelling through the output stream (the others are set by
+# ioctl / signal(): immediate)
+WMODES = ("m_alt", "m_paste", "m_focus", "m_mouse", "m_cursor_hidden")
+# Ghost state of the output path.  `m_X` is the mode X of the TERMINAL, i.e. as of the bytes that have ARRIVED there.
+# Bytes written to the screen's output stream but not flushed yet are in the stream's buffer: per mode the last
+# pending switch is what counts (`p_X_set`: one is pending, `p_X_val`: to which value) - switches of different
+# modes commute.
+PENDING = tuple(f"p_{m[2:]}_{k}" for m in WMODES for k in ("set", "val"))
 RAWSCREEN = Obj(_prd.Screen, dict(
     bracketed_paste_mode=Bool, focus_reporting=Bool, _alternate_buffer=Bool, _mouse_tracking_enabled=Bool,
     _rows_used=Opt(Int), maxrow=Opt(Int), _next_timeout=Opt(Int), max_wait=Opt(Int), _signal_keys_set=Bool,
     _old_signal_keys=Opt(Tup(Int, Int, Int, Int, Int)), _old_termios_settings=Opt(Opaque("Termios")), input_fd=Opt(Int),
-    **{m: Bool for m in MODES}))
+    _term_output_file=Opaque("OutStream"), screen_buf=Opt(Opaque("ScreenBuf")), out_unbuffered=Bool,
+    **{m: Bool for m in MODES}, **{p: Bool for p in PENDING}))
 
 # effect table of the escape constants on the ghost mode set (what a VT100/xterm does with them)
 EFFECTS = [
@@ -562,19 +571,56 @@ EFFECTS = [
 ]
 
 
-@contract(RDB + "Screen.write", property=(), assumed=True, notes="effect table: what the terminal does with the escape constants written (alternate buffer, paste, focus, mouse, cursor)")
-class scr_write:
-    self_shape = RAWSCREEN
-    modifies = ()
+def _pend(m):
+    return f"p_{m[2:]}_set", f"p_{m[2:]}_val"
 
-    def effects(old, s, a, result):
-        data = a.data
-        if not isinstance(data, str):
-            raise Unsupported("Screen.write of non-constant data")
-        # apply in textual order
-        hits = sorted((data.find(k), k, f, v) for k, f, v in EFFECTS if k in data)
-        for _pos, _k, f, v in hits:
-            s.fields[f] = v
+
+def eventual(s, m):
+    """Mode m of the terminal once everything written so far has arrived (= after a flush)."""
+    if m not in WMODES:
+        return s.fields[m]
+    ps, pv = _pend(m)
+    return V.ite(s.fields[ps], s.fields[pv], s.fields[m])
+
+
+class OutStreamProtocol(Protocol):
+    """The screen's output stream (`Screen._term_output_file`, sys.stdout by default: a BUFFERED text stream) with
+    the terminal at its far end.  Trusted: (1) stream semantics - write() appends to the stream's buffer, nothing
+    reaches the terminal before flush(), flush() delivers the whole buffer in order [the adversarial case; a stream
+    that delivers earlier (`out_unbuffered`, a symbolic flag of the pre-state) hands every write straight on];
+    (2) the effect table EFFECTS: what a VT100/xterm does with the escape constants, applied in textual order.
+    Screen.write / Screen.flush themselves are NOT assumed: their bodies are inlined into _start / _stop."""
+
+    kind = "OutStream"
+    methods = {"write": PMethod(None, params=["data"]), "flush": PMethod(None, params=[])}
+
+    def call(self, ip, st, recv, name, args, kwargs):
+        o = st.ghost["screen_obj"]
+        if kwargs or len(args) != (1 if name == "write" else 0):
+            raise PyRaise(SExc(TypeError, (f"{name}: bad arguments",)))
+        if name == "write":
+            data = args[0]
+            if not isinstance(data, str):
+                raise Unsupported("write of non-constant data to the output stream")
+            direct = bool(o.fields["out_unbuffered"])
+            hits = sorted((data.find(k), k, f, v) for k, f, v in EFFECTS if k in data)
+            for _pos, _k, f, v in hits:
+                if direct:
+                    o.fields[f] = v
+                else:
+                    ps, pv = _pend(f)
+                    o.fields[ps], o.fields[pv] = True, v
+        else:
+            for m in WMODES:
+                ps, pv = _pend(m)
+                o.fields[m] = eventual(o, m)
+                o.fields[ps] = False
+        st.event("call", recv, name, {"data": args[0]} if args else {}, None)
+        return None
+
+
+PROTOCOLS["OutStream"] = OutStreamProtocol()
+PROTOCOLS["ScreenBuf"] = type("SB", (Protocol,), {"kind": "ScreenBuf", "methods": {}})()
 
 
 for _name, _field, _val in (("signal_init", "m_signals", True), ("signal_restore", "m_signals", False)):
@@ -585,12 +631,6 @@ for _name, _field, _val in (("signal_init", "m_signals", True), ("signal_restore
 
         def effects(old, s, a, result, _f=_field, _v=_val):
             s.fields[_f] = _v
-
-for _name in ("clear", "flush"):
-    @contract((RDB if _name != "flush" else RDB) + f"Screen.{_name}", property=(), assumed=True, notes="no effect on terminal modes")
-    class _noeff:
-        self_shape = RAWSCREEN
-
 
 for _name in ("_start_gpm_tracking", "_stop_gpm_tracking"):
     @contract(PRD + f"Screen.{_name}", property=(), assumed=True, notes="gpm mouse helper process on the Linux console: outside the terminal mode set")
@@ -653,7 +693,14 @@ def modes(s):
     return {m: s.fields[m] for m in MODES}
 
 
-@contract(PRD + "Screen._start", property="C12", replayable=False, inline=(RDB + "Screen._mouse_tracking", PRD + "Screen._mouse_tracking", RDB + "Screen._start", "urwid/display/common.py:BaseScreen._start"))
+_OUT = (RDB + "Screen.write", RDB + "Screen.flush", RDB + "Screen.clear")
+
+
+def nothing_pending(s):
+    return both(*[neg(s.fields[_pend(m)[0]]) for m in WMODES])
+
+
+@contract(PRD + "Screen._start", property="C12", replayable=False, inline=(RDB + "Screen._mouse_tracking", PRD + "Screen._mouse_tracking", RDB + "Screen._start", "urwid/display/common.py:BaseScreen._start", *_OUT))
 class scr__start:
     self_shape = RAWSCREEN
     params = dict(alternate_buffer=Bool)
@@ -661,14 +708,15 @@ class scr__start:
     call_real = staticmethod(_tty_real)
 
     def requires(s, a):
-        # a terminal in its initial modes
-        return both(*[neg(s.fields[m]) for m in MODES])
+        # a terminal in its initial modes, nothing on its way to it
+        return both(*[neg(s.fields[m]) for m in MODES], nothing_pending(s))
 
     def ensures(old, s, a, result):
+        # (_start need not flush: the modes are those the terminal has once the bytes written have arrived)
         tty = (not is_none(old.input_fd)) and bool(mk_bool(_ISATTY(V._z(val(old.input_fd)))))
-        yield "alternate-buffer-iff-asked", both(eq(s.m_alt, a.alternate_buffer), eq(s._alternate_buffer, a.alternate_buffer))
-        yield "paste-and-focus-reporting-iff-configured", both(eq(s.m_paste, old.bracketed_paste_mode), eq(s.m_focus, old.focus_reporting))
-        yield "mouse-tracking-as-last-set", eq(s.m_mouse, old._mouse_tracking_enabled)
+        yield "alternate-buffer-iff-asked", both(eq(eventual(s, "m_alt"), a.alternate_buffer), eq(s._alternate_buffer, a.alternate_buffer))
+        yield "paste-and-focus-reporting-iff-configured", both(eq(eventual(s, "m_paste"), old.bracketed_paste_mode), eq(eventual(s, "m_focus"), old.focus_reporting))
+        yield "mouse-tracking-as-last-set", eq(eventual(s, "m_mouse"), old._mouse_tracking_enabled)
         yield "cbreak-iff-tty", eq(s.m_cbreak, tty)
         yield "signal-handlers-installed", s.m_signals == True  # noqa: E712
         if tty:
@@ -676,23 +724,31 @@ class scr__start:
 
 
 @contract(PRD + "Screen._stop", property="C12", replayable=False,
-          inline=(RDB + "Screen._mouse_tracking", PRD + "Screen._mouse_tracking", RDB + "Screen._stop_mouse_restore_buffer", RDB + "Screen._stop", "urwid/display/common.py:BaseScreen._stop"))
+          inline=(RDB + "Screen._mouse_tracking", PRD + "Screen._mouse_tracking", RDB + "Screen._stop_mouse_restore_buffer", RDB + "Screen._stop", "urwid/display/common.py:BaseScreen._stop", *_OUT))
 class scr__stop:
     self_shape = RAWSCREEN
     setup = staticmethod(_scr_setup)
     call_real = staticmethod(_tty_real)
 
     def requires(s, a):
-        # the state _start leaves behind (its postcondition), options unchanged since
+        # the state _start leaves behind (its postcondition), options unchanged since; how much of what was written
+        # during the session has reached the terminal is arbitrary (any split between `m_X` and the pending switch)
         tty = (not is_none(s.input_fd)) and bool(mk_bool(_ISATTY(V._z(val(s.input_fd)))))
         saved = V.SOpaque("Termios", z3.Const("saved_termios", S.opaque_sort("Termios")))
-        return both(eq(s.m_alt, s._alternate_buffer), eq(s.m_paste, s.bracketed_paste_mode), eq(s.m_focus, s.focus_reporting),
+        return both(eq(eventual(s, "m_alt"), s._alternate_buffer), eq(eventual(s, "m_paste"), s.bracketed_paste_mode),
+                    eq(eventual(s, "m_focus"), s.focus_reporting),
                     eq(s.m_cbreak, tty), s.m_signals == True,  # noqa: E712
-                    implies(tty, opt_eq(s._old_termios_settings, saved)))
+                    implies(tty, opt_eq(s._old_termios_settings, saved)),
+                    implies(s.out_unbuffered, nothing_pending(s)))  # (a stream that never holds anything back)
 
     def ensures(old, s, a, result):
+        # "leaving the terminal in its initial modes": when _stop returns - not at some later flush that may never
+        # happen (exec, kill, crash) - the terminal HAS the initial modes, judged by the bytes that reached it ...
         for m in MODES:
             yield f"initial-mode-restored/{m[2:]}", s.fields[m] == False  # noqa: E712
+        # ... and nothing still sitting in the output buffer will take it out of them again
+        for m in WMODES:
+            yield f"nothing-pending-that-changes/{m[2:]}", eventual(s, m) == False  # noqa: E712
 
 
 @contract("urwid/display/escape.py:set_cursor_position", property=(), assumed=True, notes="a cursor-addressing sequence ESC[r;cH (C04 owns its format); contains no mode-changing sequence")
